@@ -36,6 +36,8 @@ func c16(c *Ctx) {
 		"this is { not cue",
 		"x: int & string\n",
 		"",
+		// definitions, at the root and inside a struct the queries walk through
+		"#Kind: string\na: { #Size: int, b: string, c: [...int], kind: #Kind }\ninput: { _dependencies: [], name: string }\ns1: { _dependencies: [], result: #Kind }\n",
 	}
 	vq := []string{"$.s1.result", "$.s2.result.First().k", "$.input.name.Equal($.s1.result)", "$.s3.result.a.Add(1)", "$.s3.result.b-c", "$.input.list[@.x.Equal(\"a\")].Count()", "{OR,$.input.n.Greater(1),$.s1.result.Contains(\"x\")}",
 		"$.a.b", "$.a.c.Sum()", "$.a._h", "$.a.zz.yy", "$.a.data.foo", "$.nosuch", "$.s1.result.Nope()", "$.s1.result.Left(1,2,3)", "$.input.n.Contains(\"a\")", "$._a+b", "$.s2.result.name", "@.s1", "$",
@@ -127,6 +129,20 @@ func c16(c *Ctx) {
 		seen[k] = true
 		calls = append(calls, cl)
 	}
+	// every pairing of a query that parses / does not parse with a schema that compiles / does not compile
+	pairStart := len(calls)
+	for _, s := range []string{schemas[4], schemas[5], schemas[0], schemas[len(schemas)-1]} {
+		for _, q := range []string{"$.a.b", "$.a.c.Sum()", "$.bad(", "$.a.Equal(\"open", "\xff\xfe"} {
+			for _, cur := range []string{"", "s1"} {
+				k := q + "\x00" + s + "\x00" + cur
+				if !seen[k] {
+					seen[k] = true
+					calls = append(calls, call{q, s, cur})
+				}
+			}
+		}
+	}
+	pairEnd := len(calls)
 	// (a) fresh processes
 	fjobs := make([]h.Job, len(calls))
 	for i, cl := range calls {
@@ -162,6 +178,9 @@ func c16(c *Ctx) {
 		var parts []string
 		for k := 0; k < n; k++ {
 			x := hcall{idx: r.Intn(len(calls))}
+			if r.Intn(6) == 0 && pairEnd > pairStart {
+				x.idx = pairStart + r.Intn(pairEnd-pairStart) // the pairings are met often, in every order
+			}
 			if k > 0 && r.Intn(4) == 0 {
 				x.idx = hc[r.Intn(len(hc))].idx // repeat an earlier call of this history
 			}
